@@ -485,6 +485,20 @@ def run(pid: str, argv):
                     chk.traces += 1
                 except cparse.CParseError as e:
                     pass  # already reported by the oracle as unreadable output
+    if pid == "C13":
+        # both modifiers must survive the path through the project configuration file (init -> toml -> render, export)
+        from . import c20
+        descs = []
+        for k in range(3 if tier == "quick" else 20):
+            d = c20.gen_desc(chk.rng, k)
+            d["allowed"], d["required"], d["cooling"] = [], [], []
+            if d["elements"] != c20.UPPER_ELEMENTS:
+                d["rate_modifier"] = {str(chk.rng.choice([1, 2, 5])): chk.rng.choice(["1.0e-10", "2.0 * zeta"]), "7": "1e-9*exp(-10.0/Tgas)"}
+                d["ode_modifier"] = {chk.rng.choice(["H2", "CO"]): {"factors": ["1e-3", "-2.0*k[0]"], "reactants": [["H"], ["CO", "He"]]}}
+            else:
+                d["rate_modifier"] = {"2": "2.0 * zeta"}
+            descs.append(d)
+        c20.process(chk, descs, [])
     if getattr(chk, "lean_ok", False) and ov_requests:
         ws = lambda x: None if x is None else "".join(x.split())
         try:
